@@ -139,19 +139,19 @@ theorem orderInv_stepLive {s s' : St} (a : Act) (h : OrderInv s) (hs : stepLive 
     simp only [stepLive] at hs
     split at hs
     · split at hs
-      · split at hs
-        · simp at hs; subst hs; exact ⟨hi, hb, hc1, hc2, hc3⟩
-        · simp at hs
       · simp at hs; subst hs; exact ⟨hi, hb, hc1, hc2, hc3⟩
+      · split at hs
+        · simp at hs
+        · simp at hs; subst hs; exact ⟨hi, hb, hc1, hc2, hc3⟩
     · simp at hs
   | cDisc =>
     simp only [stepLive] at hs
     split at hs
     · split at hs
-      · split at hs
-        · simp at hs; subst hs; exact ⟨hi, hb, hc1, hc2, hc3⟩
-        · simp at hs
       · simp at hs; subst hs; exact ⟨hi, hb, hc1, hc2, hc3⟩
+      · split at hs
+        · simp at hs
+        · simp at hs; subst hs; exact ⟨hi, hb, hc1, hc2, hc3⟩
     · simp at hs
   | wClear =>
     simp only [stepLive] at hs
@@ -195,6 +195,11 @@ theorem orderInv_stepLive {s s' : St} (a : Act) (h : OrderInv s) (hs : stepLive 
         refine ⟨?_, by simpa using hb, by simpa using hc1, by simpa using hc2, by simpa using hc3⟩
         rw [hq] at hi
         simpa [stmtIds_append, stmtIds] using hi
+  | dPush isErr =>
+    simp only [stepLive] at hs
+    split at hs
+    · simp at hs
+    · simp at hs; subst hs; exact ⟨hi, hb, hc1, hc2, hc3⟩
   | dProcess pre isErr =>
     simp only [stepLive] at hs
     split at hs
@@ -213,6 +218,42 @@ theorem orderInv_stepLive {s s' : St} (a : Act) (h : OrderInv s) (hs : stepLive 
             · simp [hx]
           · exact List.mem_append_left _ (hb x hx)
 
+
+/-! ### what the reader hears was emitted by the device for a command it had received -/
+
+def WireInv (s : St) : Prop :=
+  (∀ c, (Reply.ok c ∈ s.toHost ∨ Reply.bad c ∈ s.toHost) → c ∈ s.devLog) ∧ (∀ c ∈ s.heard, c ∈ s.devLog)
+
+theorem wireInv_init : WireInv {} := by simp [WireInv]
+
+theorem wireInv_stepLive {s s' : St} (a : Act) (h : WireInv s) (hs : stepLive s a = some s') : WireInv s' := by
+  rcases s with ⟨cphase, online, printing, clear, lost, next, wstate, ack, err, priq, toDev, toHost, devLog, heard, devBad, outcomes, backlog, probes, discRaised, surplusHit, anyXbad, dueErr⟩
+  cases a with
+  | lListen =>
+    simp only [stepLive] at hs
+    split at hs
+    · simp at hs
+    · split at hs
+      · simp at hs
+      · rename_i x r rs
+        simp at hs; subst hs
+        simp only [WireInv] at h ⊢
+        cases r <;> simp only [hear] <;> (try split) <;> simp_all <;> grind
+  | dProcess pre isErr =>
+    simp only [stepLive] at hs
+    split at hs
+    · simp at hs
+    · split at hs
+      · simp at hs
+      · rename_i x c cs
+        simp at hs; subst hs
+        simp only [WireInv] at h ⊢
+        have hp : ∀ c', Reply.ok c' ∉ pre.map preLine ∧ Reply.bad c' ∉ pre.map preLine := by
+          intro c'; constructor <;> (intro hm; rw [List.mem_map] at hm; obtain ⟨t, _, ht⟩ := hm; cases t <;> simp [preLine] at ht)
+        cases isErr <;> simp_all <;> grind
+  | _ =>
+    simp only [stepLive] at hs
+    (repeat' split at hs) <;> simp at hs <;> subst hs <;> simp_all [WireInv, tx] <;> (try split) <;> simp_all
 
 /-! ### synchronisation invariant -/
 
@@ -251,7 +292,7 @@ def Answered (s : St) (k : Nat) : Prop :=
 
 /-- statement k is queued / on the wire / answered but the answer not yet read -/
 def Unanswered (s : St) (k : Nat) : Prop :=
-  s.ack = false ∧ (s.err = true → s.anyXbad = true) ∧
+  s.ack = false ∧ (s.err = true → s.anyXbad = true) ∧ Cmd.stmt k ∉ s.heard ∧
   ( (s.priq = [.stmt k] ∧ NoFlight s ∧ Cmd.stmt k ∉ s.devBad)
   ∨ (s.priq = [] ∧ s.toDev = [.stmt k] ∧ termOf s.toHost = [] ∧ Cmd.stmt k ∉ s.devBad)
   ∨ (s.priq = [] ∧ s.toDev = [] ∧ termOf s.toHost = [.ok (.stmt k)] ∧ Cmd.stmt k ∉ s.devBad)
@@ -262,14 +303,14 @@ def WritePhase (s : St) : Prop :=
   (s.wstate = .idle → s.priq = [] ∧ NoFlight s ∧ (s.err = true → s.anyXbad = true) ∧ ∀ p ∈ s.outcomes, p.1 < s.next) ∧
   (∀ k, s.wstate = .cleared k →
       s.priq = [] ∧ NoFlight s ∧ (s.err = true → s.anyXbad = true) ∧ s.ack = false ∧ Cmd.stmt k ∉ s.devBad
-      ∧ ∀ p ∈ s.outcomes, p.1 < k) ∧
+      ∧ Cmd.stmt k ∉ s.heard ∧ ∀ p ∈ s.outcomes, p.1 < k) ∧
   (∀ k, s.wstate = .waiting k → (Unanswered s k ∨ (Answered s k ∧ s.ack = true)) ∧ ∀ p ∈ s.outcomes, p.1 < k) ∧
   (∀ k, s.wstate = .woke k → Answered s k ∧ ∀ p ∈ s.outcomes, p.1 < k)
 
 def Phase (s : St) : Prop :=
   (s.cphase = .waitOnline → s.outcomes = [] ∧ s.wstate = .idle ∧ s.priq = [] ∧ s.printing = false)
   ∧ (s.cphase = .waitPending → ConnPhase s)
-  ∧ ((s.cphase = .connected ∨ s.cphase = .disconnected) → WritePhase s)
+  ∧ ((s.cphase = .connected ∨ (s.cphase = .disconnected ∧ s.discRaised = false)) → WritePhase s)
 
 def Core (s : St) : Prop := OutOK s ∧ LostPart s ∧ (s.lost = false → Phase s)
 
@@ -291,7 +332,8 @@ theorem termOf_cons_t {r : Reply} {rs : List Reply} (h : r.terminal = true) : te
   simp [termOf, h]
 
 set_option maxHeartbeats 1000000 in
-theorem core_lListen {s s' : St} (h : Core s) (hs : stepLive s .lListen = some s') : Core s' := by
+theorem core_lListen {s s' : St} (h : Core s) (hs : stepLive s .lListen = some s') (hsp : s'.surplusHit = false) :
+    Core s' := by
   rcases s with ⟨cphase, online, printing, clear, lost, next, wstate, ack, err, priq, toDev, toHost, devLog, heard, devBad, outcomes, backlog, probes, discRaised, surplusHit, anyXbad, dueErr⟩
   simp only [stepLive] at hs
   split at hs
@@ -326,6 +368,21 @@ theorem core_lListen {s s' : St} (h : Core s) (hs : stepLive s .lListen = some s
         simp only [hear]
         simp only [Core, OutOK, LostPart, Phase, ConnPhase, WritePhase, NoFlight, InFlight, Unanswered, Answered, halted, termOf_cons_t (r := .bad c) rfl] at h ⊢
         cases cphase <;> cases wstate <;> simp_all
+      | xok =>
+        simp only [hear] at hsp ⊢
+        split
+        · rename_i hon
+          simp only [hon, if_true, Bool.or_eq_false_iff, surplusNow] at hsp
+          simp only [Core, OutOK, LostPart, Phase, ConnPhase, WritePhase, NoFlight, InFlight, Unanswered, Answered, halted, termOf_cons_nt (r := .xok) rfl] at h ⊢
+          cases cphase <;> cases wstate <;> simp_all
+        · rename_i hon
+          simp only [hon, if_false, Bool.or_eq_false_iff, surplusNow] at hsp
+          simp only [Core, OutOK, LostPart, Phase, ConnPhase, WritePhase, NoFlight, InFlight, Unanswered, Answered, halted, termOf_cons_nt (r := .xok) rfl] at h ⊢
+          cases cphase <;> cases wstate <;> simp_all
+      | xbad =>
+        simp only [hear, Bool.or_eq_false_iff, surplusNow] at hsp ⊢
+        simp only [Core, OutOK, LostPart, Phase, ConnPhase, WritePhase, NoFlight, InFlight, Unanswered, Answered, halted, termOf_cons_nt (r := .xbad) rfl] at h ⊢
+        cases cphase <;> cases wstate <;> simp_all
 
 theorem core_xLoss {s s' : St} (h : Core s) (hs : stepLive s .xLoss = some s') : Core s' := by
   rcases s with ⟨cphase, online, printing, clear, lost, next, wstate, ack, err, priq, toDev, toHost, devLog, heard, devBad, outcomes, backlog, probes, discRaised, surplusHit, anyXbad, dueErr⟩
@@ -355,14 +412,14 @@ theorem core_cPoll {s s' : St} (h : Core s) (hs : stepLive s .cPoll = some s') :
   simp only [stepLive] at hs
   split at hs
   · split at hs
-    · split at hs
-      · simp at hs; subst hs
-        inv_simp
-        cases cphase <;> cases wstate <;> cases lost <;> simp_all
-      · simp at hs
     · simp at hs; subst hs
       inv_simp
       cases cphase <;> cases wstate <;> cases lost <;> simp_all
+    · split at hs
+      · simp at hs
+      · simp at hs; subst hs
+        inv_simp
+        cases cphase <;> cases wstate <;> cases lost <;> simp_all
   · simp at hs
 
 theorem core_cDisc {s s' : St} (h : Core s) (hs : stepLive s .cDisc = some s') : Core s' := by
@@ -370,14 +427,14 @@ theorem core_cDisc {s s' : St} (h : Core s) (hs : stepLive s .cDisc = some s') :
   simp only [stepLive] at hs
   split at hs
   · split at hs
-    · split at hs
-      · simp at hs; subst hs
-        inv_simp
-        cases cphase <;> cases wstate <;> cases lost <;> simp_all
-      · simp at hs
     · simp at hs; subst hs
       inv_simp
       cases cphase <;> cases wstate <;> cases lost <;> simp_all
+    · split at hs
+      · simp at hs
+      · simp at hs; subst hs
+        inv_simp
+        cases cphase <;> cases wstate <;> cases lost <;> simp_all
   · simp at hs
 
 theorem core_wWake {s s' : St} (h : Core s) (hs : stepLive s .wWake = some s') : Core s' := by
@@ -444,7 +501,15 @@ theorem core_cOnline {s s' : St} (h : Core s) (hs : stepLive s .cOnline = some s
       cases wstate <;> cases lost <;> simp_all
   · simp at hs
 
-theorem core_wClear {s s' : St} (ho : OrderInv s) (h : Core s) (hs : stepLive s .wClear = some s') : Core s' := by
+theorem core_wClear {s s' : St} (ho : OrderInv s) (hw : WireInv s) (h : Core s) (hs : stepLive s .wClear = some s') :
+    Core s' := by
+  have hlog : Cmd.stmt s.next ∉ s.devLog := by
+    intro h1
+    have h2 : s.next ∈ stmtIds (s.devLog ++ s.toDev ++ s.priq) := by
+      rw [mem_stmtIds]; simp [h1]
+    rw [ho.ids] at h2
+    simp at h2
+  have hfresh2 : Cmd.stmt s.next ∉ s.heard := fun hm => hlog (hw.2 _ hm)
   have hfresh : Cmd.stmt s.next ∉ s.devBad := by
     intro hm
     have h1 := ho.bad _ hm
@@ -519,65 +584,30 @@ theorem core_dProcess {s s' : St} (pre : List Bool) (isErr : Bool) (h : Core s) 
         cases cphase <;> cases wstate <;> simp_all <;> grind
 
 
-/-! ### the ghost flag `backlog` is written once, by `cOnline` -/
+theorem termOf_snoc_nt (l : List Reply) {r : Reply} (h : r.terminal = false) : termOf (l ++ [r]) = termOf l := by
+  simp [termOf, h]
+
+theorem core_dPush {s s' : St} (isErr : Bool) (h : Core s) (hs : stepLive s (.dPush isErr) = some s') : Core s' := by
+  rcases s with ⟨cphase, online, printing, clear, lost, next, wstate, ack, err, priq, toDev, toHost, devLog, heard, devBad, outcomes, backlog, probes, discRaised, surplusHit, anyXbad, dueErr⟩
+  simp only [stepLive] at hs
+  split at hs
+  · simp at hs
+  · simp at hs; subst hs
+    cases isErr
+    · simp only [Bool.false_eq_true, if_false]
+      simp only [Core, OutOK, LostPart, Phase, ConnPhase, WritePhase, NoFlight, InFlight, Unanswered, Answered, halted,
+        termOf_snoc_nt toHost (r := .xok) rfl] at h ⊢
+      exact h
+    · simp only [if_true]
+      simp only [Core, OutOK, LostPart, Phase, ConnPhase, WritePhase, NoFlight, InFlight, Unanswered, Answered, halted,
+        termOf_snoc_nt toHost (r := .xbad) rfl] at h ⊢
+      exact h
+
+/-! ### the ghost flags `backlog` (written once, by `cOnline`) and `surplusHit` (raised by `lListen` only) -/
 
 theorem stepLive_frame {s s' : St} {a : Act} (hs : stepLive s a = some s') :
     (a ≠ .cOnline → s'.backlog = s.backlog) ∧ (s'.cphase = .waitOnline → s.cphase = .waitOnline ∧ a ≠ .cOnline)
-    ∧ (a = .cOnline → s.cphase = .waitOnline) := by
-  cases a <;> simp only [stepLive] at hs <;> (repeat' split at hs) <;> simp at hs <;> subst hs <;> simp_all
-
-theorem sinv_step {s s' : St} (a : Act) (ho : OrderInv s) (h : SInv s) (hs : step s a = some s') : SInv s' := by
-  unfold step at hs
-  split at hs
-  · simp at hs
-  · rename_i hh
-    have hh : halted s = false := by simpa using hh
-    obtain ⟨f1, f2, f3⟩ := stepLive_frame hs
-    refine ⟨?_, ?_⟩
-    · intro hw
-      obtain ⟨h1, h2⟩ := f2 hw
-      rw [f1 h2]; exact h.1 h1
-    · intro hb
-      cases a with
-      | cOnline => exact core_cOnline (h.2 (h.1 (f3 rfl))) hs hb
-      | lProbe => exact core_lProbe (h.2 (by rw [← f1 (by simp)]; exact hb)) hs
-      | lListen => exact core_lListen (h.2 (by rw [← f1 (by simp)]; exact hb)) hs
-      | xLoss => exact core_xLoss (h.2 (by rw [← f1 (by simp)]; exact hb)) hs
-      | pSendnext => exact core_pSendnext (h.2 (by rw [← f1 (by simp)]; exact hb)) hs
-      | cPoll => exact core_cPoll (h.2 (by rw [← f1 (by simp)]; exact hb)) hs
-      | cDisc => exact core_cDisc (h.2 (by rw [← f1 (by simp)]; exact hb)) hs
-      | wClear => exact core_wClear ho (h.2 (by rw [← f1 (by simp)]; exact hb)) hs
-      | wEnq => exact core_wEnq ho (h.2 (by rw [← f1 (by simp)]; exact hb)) hs
-      | wWake => exact core_wWake (h.2 (by rw [← f1 (by simp)]; exact hb)) hs
-      | wFinish => exact core_wFinish ho (h.2 (by rw [← f1 (by simp)]; exact hb)) hh hs
-      | sSend => exact core_sSend (h.2 (by rw [← f1 (by simp)]; exact hb)) hs
-      | dProcess pre isErr => exact core_dProcess pre isErr (h.2 (by rw [← f1 (by simp)]; exact hb)) hh hs
-
-theorem orderInv_step {s s' : St} (a : Act) (h : OrderInv s) (hs : step s a = some s') : OrderInv s' := by
-  unfold step at hs
-  split at hs
-  · simp at hs
-  · exact orderInv_stepLive a h hs
-
-theorem inv_run : ∀ (acts : List Act) (s s' : St), OrderInv s → SInv s → run s acts = some s' → OrderInv s' ∧ SInv s'
-  | [], s, s', ho, h, hr => by simp [run] at hr; subst hr; exact ⟨ho, h⟩
-  | a :: as, s, s', ho, h, hr => by
-      simp only [run] at hr
-      cases hst : step s a with
-      | none => simp [hst] at hr
-      | some s1 =>
-        simp [hst] at hr
-        exact inv_run as s1 s' (orderInv_step a ho hst) (sinv_step a ho h hst) hr
-
-/-! ### what the reader hears was emitted by the device for a command it had received -/
-
-def WireInv (s : St) : Prop :=
-  (∀ c, (Reply.ok c ∈ s.toHost ∨ Reply.bad c ∈ s.toHost) → c ∈ s.devLog) ∧ (∀ c ∈ s.heard, c ∈ s.devLog)
-
-theorem wireInv_init : WireInv {} := by simp [WireInv]
-
-theorem wireInv_stepLive {s s' : St} (a : Act) (h : WireInv s) (hs : stepLive s a = some s') : WireInv s' := by
-  rcases s with ⟨cphase, online, printing, clear, lost, next, wstate, ack, err, priq, toDev, toHost, devLog, heard, devBad, outcomes, backlog, probes, discRaised, surplusHit, anyXbad, dueErr⟩
+    ∧ (a = .cOnline → s.cphase = .waitOnline) ∧ (s'.surplusHit = false → s.surplusHit = false) := by
   cases a with
   | lListen =>
     simp only [stepLive] at hs
@@ -585,36 +615,76 @@ theorem wireInv_stepLive {s s' : St} (a : Act) (h : WireInv s) (hs : stepLive s 
     · simp at hs
     · split at hs
       · simp at hs
-      · rename_i x r rs
+      · rename_i r rs hq
         simp at hs; subst hs
-        simp only [WireInv] at h ⊢
-        cases r <;> simp only [hear] <;> (try split) <;> simp_all <;> grind
-  | dProcess pre isErr =>
-    simp only [stepLive] at hs
-    split at hs
-    · simp at hs
-    · split at hs
-      · simp at hs
-      · rename_i x c cs
-        simp at hs; subst hs
-        simp only [WireInv] at h ⊢
-        have hp : ∀ c', Reply.ok c' ∉ pre.map preLine ∧ Reply.bad c' ∉ pre.map preLine := by
-          intro c'; constructor <;> (intro hm; rw [List.mem_map] at hm; obtain ⟨t, _, ht⟩ := hm; cases t <;> simp [preLine] at ht)
-        cases isErr <;> simp_all <;> grind
-  | _ =>
-    simp only [stepLive] at hs
-    (repeat' split at hs) <;> simp at hs <;> subst hs <;> simp_all [WireInv, tx] <;> (try split) <;> simp_all
+        cases r <;> simp only [hear] <;> (try split) <;> simp_all
+  | _ => simp only [stepLive] at hs <;> (repeat' split at hs) <;> simp at hs <;> subst hs <;> simp_all
+
+theorem sinv_step {s s' : St} (a : Act) (ho : OrderInv s) (hw : WireInv s) (h : SInv s) (hs : step s a = some s') :
+    SInv s' := by
+  unfold step at hs
+  split at hs
+  · simp at hs
+  · rename_i hh
+    have hh : halted s = false := by simpa using hh
+    obtain ⟨f1, f2, f3, f4⟩ := stepLive_frame hs
+    refine ⟨?_, ?_⟩
+    · intro hw
+      obtain ⟨h1, h2⟩ := f2 hw
+      rw [f1 h2]; exact h.1 h1
+    · intro hb hsp
+      have hsp0 := f4 hsp
+      cases a with
+      | cOnline => exact core_cOnline (h.2 (h.1 (f3 rfl)) hsp0) hs hb
+      | lProbe => exact core_lProbe (h.2 (by rw [← f1 (by simp)]; exact hb) hsp0) hs
+      | lListen => exact core_lListen (h.2 (by rw [← f1 (by simp)]; exact hb) hsp0) hs hsp
+      | xLoss => exact core_xLoss (h.2 (by rw [← f1 (by simp)]; exact hb) hsp0) hs
+      | pSendnext => exact core_pSendnext (h.2 (by rw [← f1 (by simp)]; exact hb) hsp0) hs
+      | cPoll => exact core_cPoll (h.2 (by rw [← f1 (by simp)]; exact hb) hsp0) hs
+      | cDisc => exact core_cDisc (h.2 (by rw [← f1 (by simp)]; exact hb) hsp0) hs
+      | wClear => exact core_wClear ho hw (h.2 (by rw [← f1 (by simp)]; exact hb) hsp0) hs
+      | wEnq => exact core_wEnq ho (h.2 (by rw [← f1 (by simp)]; exact hb) hsp0) hs
+      | wWake => exact core_wWake (h.2 (by rw [← f1 (by simp)]; exact hb) hsp0) hs
+      | wFinish => exact core_wFinish ho (h.2 (by rw [← f1 (by simp)]; exact hb) hsp0) hh hs
+      | sSend => exact core_sSend (h.2 (by rw [← f1 (by simp)]; exact hb) hsp0) hs
+      | dProcess pre isErr => exact core_dProcess pre isErr (h.2 (by rw [← f1 (by simp)]; exact hb) hsp0) hh hs
+      | dPush isErr => exact core_dPush isErr (h.2 (by rw [← f1 (by simp)]; exact hb) hsp0) hs
+
+theorem orderInv_step {s s' : St} (a : Act) (h : OrderInv s) (hs : step s a = some s') : OrderInv s' := by
+  unfold step at hs
+  split at hs
+  · simp at hs
+  · exact orderInv_stepLive a h hs
+
+theorem wireInv_step {s s' : St} (a : Act) (h : WireInv s) (hs : step s a = some s') : WireInv s' := by
+  unfold step at hs
+  split at hs
+  · simp at hs
+  · exact wireInv_stepLive a h hs
+
+theorem inv_run : ∀ (acts : List Act) (s s' : St), OrderInv s → WireInv s → SInv s → run s acts = some s' →
+    OrderInv s' ∧ WireInv s' ∧ SInv s'
+  | [], s, s', ho, hw, h, hr => by simp [run] at hr; subst hr; exact ⟨ho, hw, h⟩
+  | a :: as, s, s', ho, hw, h, hr => by
+      simp only [run] at hr
+      cases hst : step s a with
+      | none => simp [hst] at hr
+      | some s1 =>
+        simp [hst] at hr
+        exact inv_run as s1 s' (orderInv_step a ho hst) (wireInv_step a hw hst) (sinv_step a ho hw h hst) hr
 
 /-! ### a single probe answered with `ok` leaves no backlog -/
 
-/-- the device never emits a line containing "T:" (no temperature auto-report) -/
+/-- the device never emits a line containing "T:" (no temperature auto-report) and never pushes a
+    surplus `ok` / an unsolicited error line -/
 def Act.noTemp : Act → Bool
   | .dProcess pre _ => !pre.contains true
+  | .dPush _ => false
   | _ => true
 
 def JInv (s : St) : Prop :=
   (s.cphase = .waitOnline →
-      s.printing = false ∧ s.priq = [] ∧ s.wstate = .idle ∧ s.backlog = false ∧ Reply.temp ∉ s.toHost
+      s.printing = false ∧ s.priq = [] ∧ s.wstate = .idle ∧ s.backlog = false ∧ Reply.temp ∉ s.toHost ∧ Reply.xok ∉ s.toHost ∧ Reply.xbad ∉ s.toHost
       ∧ s.toDev.length + (termOf s.toHost).length + s.heard.length = s.probes
       ∧ (s.online = true → 1 ≤ s.heard.length))
   ∧ (s.cphase ≠ .waitOnline → s.online = true ∧ (s.probes ≤ 1 → s.backlog = false))
@@ -647,9 +717,15 @@ theorem jInv_stepLive {s s' : St} (a : Act) (hn : a.noTemp = true) (h : JInv s) 
         | temp => cases cphase <;> simp_all [hear]
         | ok c => simp only [hear, termOf_cons_t (r := .ok c) rfl] at h ⊢; split <;> cases cphase <;> simp_all <;> omega
         | bad c => simp only [hear, termOf_cons_t (r := .bad c) rfl] at h ⊢; cases cphase <;> simp_all <;> omega
+        | xok => simp only [hear] at h ⊢; split <;> cases cphase <;> simp_all
+        | xbad => simp only [hear] at h ⊢; cases cphase <;> simp_all
   | dProcess pre isErr =>
     simp only [Act.noTemp, Bool.not_eq_true'] at hn
     have hnt := not_temp_pre hn
+    have hx1 : Reply.xok ∉ pre.map preLine := by
+      intro hm; rw [List.mem_map] at hm; obtain ⟨t, _, ht⟩ := hm; cases t <;> simp [preLine] at ht
+    have hx2 : Reply.xbad ∉ pre.map preLine := by
+      intro hm; rw [List.mem_map] at hm; obtain ⟨t, _, ht⟩ := hm; cases t <;> simp [preLine] at ht
     simp only [stepLive] at hs
     split at hs
     · simp at hs
@@ -689,6 +765,7 @@ theorem jInv_stepLive {s s' : St} (a : Act) (hn : a.noTemp = true) (h : JInv s) 
         have : toDev.length = 0 ∧ (termOf toHost).length = 0 := by omega
         simp_all
     · simp at hs
+  | dPush e => simp [Act.noTemp] at hn
   | _ =>
     simp only [stepLive] at hs
     (repeat' split at hs) <;> simp at hs <;> subst hs <;> simp_all [JInv, tx] <;> (try split) <;> (try simp_all) <;> (try omega)
@@ -714,9 +791,36 @@ theorem dInv_step {s s' : St} (a : Act) (hs : step s a = some s') : DInv s' := b
       simp only [stepLive] at hs
       (repeat' split at hs) <;> simp at hs <;> subst hs <;> simp_all [DInv, pending]
 
-/-! ### lifting to runs -/
+/-! ### an error line that has been read stays stored until it is raised -/
 
-theorem wireInv_run : ∀ (acts : List Act) (s s' : St), WireInv s → run s acts = some s' → WireInv s'
+/-- `dueErr`: an error line was read and no `write()`, `connect()` or `disconnect(wait=True)` has raised
+    since.  Then the error is still stored and the writer is alive. -/
+def EInv (s : St) : Prop := s.dueErr = true → s.err = true ∧ halted s = false
+
+theorem eInv_init : EInv {} := by simp [EInv]
+
+theorem eInv_step {s s' : St} (a : Act) (h : EInv s) (hs : step s a = some s') : EInv s' := by
+  unfold step at hs
+  split at hs
+  · simp at hs
+  · rename_i hh
+    rcases s with ⟨cphase, online, printing, clear, lost, next, wstate, ack, err, priq, toDev, toHost, devLog, heard, devBad, outcomes, backlog, probes, discRaised, surplusHit, anyXbad, dueErr⟩
+    simp only [halted, Bool.or_eq_true, beq_iff_eq, not_or] at hh
+    cases a with
+    | lListen =>
+      simp only [stepLive] at hs
+      split at hs
+      · simp at hs
+      · split at hs
+        · simp at hs
+        · rename_i x r rs
+          simp at hs; subst hs
+          cases r <;> simp only [hear] <;> (try split) <;> simp_all [EInv, halted]
+    | _ =>
+      simp only [stepLive] at hs
+      (repeat' split at hs) <;> simp at hs <;> subst hs <;> simp_all [EInv, halted]
+
+theorem eInv_run : ∀ (acts : List Act) (s s' : St), EInv s → run s acts = some s' → EInv s'
   | [], s, s', h, hr => by simp [run] at hr; subst hr; exact h
   | a :: as, s, s', h, hr => by
       simp only [run] at hr
@@ -724,11 +828,55 @@ theorem wireInv_run : ∀ (acts : List Act) (s s' : St), WireInv s → run s act
       | none => simp [hst] at hr
       | some s1 =>
         simp [hst] at hr
-        refine wireInv_run as s1 s' ?_ hr
-        unfold step at hst
-        split at hst
-        · simp at hst
-        · exact wireInv_stepLive a h hst
+        exact eInv_run as s1 s' (eInv_step a h hst) hr
+
+/-! ### without `dPush` no surplus line exists -/
+
+def PInv (s : St) : Prop := Reply.xok ∉ s.toHost ∧ Reply.xbad ∉ s.toHost ∧ s.surplusHit = false
+
+theorem pInv_init : PInv {} := by simp [PInv]
+
+theorem pInv_step {s s' : St} (a : Act) (hn : a.noTemp = true) (h : PInv s) (hs : step s a = some s') : PInv s' := by
+  unfold step at hs
+  split at hs
+  · simp at hs
+  · rename_i hh
+    rcases s with ⟨cphase, online, printing, clear, lost, next, wstate, ack, err, priq, toDev, toHost, devLog, heard, devBad, outcomes, backlog, probes, discRaised, surplusHit, anyXbad, dueErr⟩
+    cases a with
+    | lListen =>
+      simp only [stepLive] at hs
+      split at hs
+      · simp at hs
+      · split at hs
+        · simp at hs
+        · rename_i x r rs
+          simp at hs; subst hs
+          cases r <;> simp only [hear] <;> (try split) <;> simp_all [PInv]
+    | dProcess pre isErr =>
+      have hx1 : Reply.xok ∉ pre.map preLine := by
+        intro hm; rw [List.mem_map] at hm; obtain ⟨t, _, ht⟩ := hm; cases t <;> simp [preLine] at ht
+      have hx2 : Reply.xbad ∉ pre.map preLine := by
+        intro hm; rw [List.mem_map] at hm; obtain ⟨t, _, ht⟩ := hm; cases t <;> simp [preLine] at ht
+      simp only [stepLive] at hs
+      (repeat' split at hs) <;> simp at hs <;> subst hs <;> cases isErr <;> simp_all [PInv]
+    | dPush e => simp [Act.noTemp] at hn
+    | _ =>
+      simp only [stepLive] at hs
+      (repeat' split at hs) <;> simp at hs <;> subst hs <;> simp_all [PInv]
+
+theorem pInv_run : ∀ (acts : List Act) (s s' : St), (∀ a ∈ acts, a.noTemp = true) → PInv s →
+    run s acts = some s' → PInv s'
+  | [], s, s', _, h, hr => by simp [run] at hr; subst hr; exact h
+  | a :: as, s, s', hn, h, hr => by
+      simp only [run] at hr
+      cases hst : step s a with
+      | none => simp [hst] at hr
+      | some s1 =>
+        simp [hst] at hr
+        exact pInv_run as s1 s' (fun b hb => hn b (List.mem_cons_of_mem _ hb))
+          (pInv_step a (hn a List.mem_cons_self) h hst) hr
+
+/-! ### lifting to runs -/
 
 theorem jInv_run : ∀ (acts : List Act) (s s' : St), (∀ a ∈ acts, a.noTemp = true) → JInv s →
     run s acts = some s' → JInv s'
@@ -782,12 +930,12 @@ theorem sinv_of_connectedIdle {s : St} (h : ConnectedIdle s) (hn : ¬StaleAck s)
     apply Classical.byContradiction; intro hc; exact hn (Or.inl hc)
   have ht : termOf s.toHost = [] := by
     apply Classical.byContradiction; intro hc; exact hn (Or.inr hc)
-  refine ⟨fun hw => (by simp [h1] at hw), fun _ => ⟨?_, ?_, ?_⟩⟩
+  refine ⟨fun hw => (by simp [h1] at hw), fun _ _ => ⟨?_, ?_, ?_⟩⟩
   · intro p hp; simp [h10] at hp
   · intro hl; simp [h3] at hl
   · intro _
     refine ⟨fun hw => (by simp [h1] at hw), fun hw => (by simp [h1] at hw), fun _ => ?_⟩
-    refine ⟨h5, h6, h7, fun _ => ⟨h8, ⟨hd, ht⟩, h9, ?_⟩, fun k hk => (by simp [h2] at hk),
+    refine ⟨h5, h6, h7, fun _ => ⟨h8, ⟨hd, ht⟩, fun he => (by simp [h9] at he), ?_⟩, fun k hk => (by simp [h2] at hk),
       fun k hk => (by simp [h2] at hk), fun k hk => (by simp [h2] at hk)⟩
     intro p hp; simp [h10] at hp
 
